@@ -662,6 +662,31 @@ func (e *Engine) Connect(st ConnHooks) (net.Conn, gnet.Conn, error) {
 	}
 }
 
+// ConnectWith is Connect for server-side engines with a caller-supplied dial function.
+func (e *Engine) ConnectWith(st ConnHooks, dial func() (net.Conn, error)) (net.Conn, error) {
+	e.connMu.Lock()
+	defer e.connMu.Unlock()
+	ch := make(chan struct{})
+	e.h.mu.Lock()
+	e.h.pending = st
+	e.h.opened = ch
+	e.h.mu.Unlock()
+	peer, err := dial()
+	if err != nil {
+		e.h.mu.Lock()
+		e.h.pending, e.h.opened = nil, nil
+		e.h.mu.Unlock()
+		return nil, fmt.Errorf("%w: dial: %v", ErrInfra, err)
+	}
+	select {
+	case <-ch:
+		return peer, nil
+	case <-time.After(15 * time.Second):
+		peer.Close()
+		return nil, fmt.Errorf("no OnOpen within 15s of a successful connect")
+	}
+}
+
 // Stop shuts the engine down and waits for Run / Client.Stop to return.
 func (e *Engine) Stop() error {
 	if e.stopped {
